@@ -4,6 +4,8 @@ import (
 	"fmt"
 	"math"
 	"math/big"
+	"reflect"
+	"strings"
 
 	sdk "github.com/cosmos/cosmos-sdk/types"
 
@@ -216,6 +218,13 @@ func runC16(rc *RunCtx) {
 			m = &rnstypes.MsgRegister{Creator: c.Accs[i].Bech, Name: spell(full), Years: y, Data: "{}"}
 		} else {
 			m = &rnstypes.MsgRegisterName{Creator: c.Accs[i].Bech, Name: spell(full), Years: y, Data: fmt.Sprintf(`{"n":%d}`, rc.Intn(100)), SetPrimary: rc.Chance(0.3)}
+		}
+		if rc.Chance(0.1) {
+			// the registrant spells its own address in upper case (valid bech32, same signer, same account)
+			if f := reflect.ValueOf(m).Elem().FieldByName("Creator"); f.IsValid() {
+				f.SetString(strings.ToUpper(f.String()))
+				rc.Count("registrations_with_upper_case_creator", 1)
+			}
 		}
 		_, ok := w.Do(i, m)
 		return ok
